@@ -36,7 +36,7 @@ BOUNDS = (
     "BoundingBox / slices / apertures field by field; None == None; list, tuple and object arrays "
     "compared element-wise).  Independence: 13 operations (add, add with overwrite, rename, remove, "
     "remove several, remove all, circular_photometry / kron_photometry / fluxfrac_radius with a new "
-    "name and with overwrite of an inherited name) applied to parent or child for 6 index forms; the "
+    "name and with overwrite of an inherited name) applied to parent or child for up to 7 index forms (quick: 4, on the first 4 SourceCatalog configurations); the "
     "other catalog's extra_properties list, extra values, to_table (default columns + extras) and "
     "meta must be unchanged, both when it was evaluated before the operation and when it was not; "
     "the acting catalog's extra_properties list must change as documented."
@@ -905,7 +905,7 @@ def run(ctx):
     rng = ctx.rng
     sc, ap, extra = configs(ctx)
     nmixed = 4 if ctx.thorough else 1
-    ctx.budget_s = 520 if ctx.thorough else 50
+    ctx.budget_s = 480 if ctx.thorough else 45
     done = []
     # interleave so that a time cut still covers both classes and the independence clause
     plan = []
